@@ -234,6 +234,9 @@ impl Emit {
             if matches!(t, Tgt::ViaCountAlias | Tgt::ViaToksAlias) {
                 continue;
             }
+            if matches!(t, Tgt::Font) && NO_FONT.with(|f| f.get()) {
+                continue;
+            }
             self.read(t);
         }
     }
@@ -406,6 +409,26 @@ pub struct Built {
 }
 
 pub fn build(p: &Program, dev: Deviations) -> Built {
+    build_opts(p, dev, None, false).0
+}
+
+/// Like `build`, but optionally without font targets (for engines that lack the harness probes)
+/// and reporting the byte offset in `text` just before operation `split_at` (after the preamble
+/// when `split_at` is 0; the end of the operations when it is >= their number).
+pub fn build_opts(p: &Program, dev: Deviations, split_at: Option<usize>, no_font: bool) -> (Built, usize) {
+    let ops: Vec<Op> = p.ops.iter().filter(|o| !(no_font && matches!(o, Op::Assign { t: Tgt::Font, .. } | Op::Read(Tgt::Font)))).copied().collect();
+    let p = &Program { ops };
+    NO_FONT.with(|f| f.set(no_font));
+    let r = build_inner(p, dev, split_at);
+    NO_FONT.with(|f| f.set(false));
+    r
+}
+
+thread_local! {
+    static NO_FONT: std::cell::Cell<bool> = const { std::cell::Cell::new(false) };
+}
+
+fn build_inner(p: &Program, dev: Deviations, split_at: Option<usize>) -> (Built, usize) {
     let mut f0 = initial_frame();
     // category codes of ^^A, ^^B and | under the plain-TeX defaults of the VM
     let defaults = texlang::types::CatCode::PLAIN_TEX_DEFAULTS;
@@ -418,7 +441,11 @@ pub fn build(p: &Program, dev: Deviations) -> Built {
     let mut touched: Vec<BTreeMap<Tgt, (bool, bool)>> = vec![BTreeMap::new()];
     let mut nontrivial = false;
     let mut uses_globaldefs = false;
-    for op in &p.ops {
+    let mut split_pos: Option<usize> = None;
+    for (op_index, op) in p.ops.iter().enumerate() {
+        if split_at == Some(op_index) {
+            split_pos = Some(e.text.len());
+        }
         match op {
             Op::Begin => {
                 if e.model.len() > 8 {
@@ -460,6 +487,7 @@ pub fn build(p: &Program, dev: Deviations) -> Built {
             Op::Read(t) => e.read(*t),
         }
     }
+    let split_pos = split_pos.unwrap_or(e.text.len());
     while e.model.len() > 1 {
         e.text.push('}');
         e.model.pop();
@@ -467,7 +495,7 @@ pub fn build(p: &Program, dev: Deviations) -> Built {
     }
     e.read_all();
     e.text.push('%');
-    Built { text: e.text, expected: e.expected, max_depth, nontrivial, uses_globaldefs }
+    (Built { text: e.text, expected: e.expected, max_depth, nontrivial, uses_globaldefs }, split_pos)
 }
 
 fn tgt_strategy() -> impl Strategy<Value = Tgt> {
